@@ -81,12 +81,15 @@ type Service struct {
 // File is one .proto file. Syntax is "proto2", "proto3" or "editions" (edition 2023).
 type File struct {
 	Path, Syntax, Package string
-	Imports               []string
-	Opts                  []Opt
-	Messages              []*Message
-	Enums                 []*Enum
-	Services              []*Service
-	Extends               []*Extend
+	// NoSyntaxDecl: the file has no `syntax = ...;` line at all (legal; means proto2 — only honoured when
+	// Syntax is "proto2"). buf tracks this as "syntax unspecified".
+	NoSyntaxDecl bool `json:",omitempty"`
+	Imports      []string
+	Opts         []Opt
+	Messages     []*Message
+	Enums        []*Enum
+	Services     []*Service
+	Extends      []*Extend
 }
 
 // Schema is a set of files (one module).
@@ -470,6 +473,7 @@ type Style struct {
 	BlankLines     bool   // blank line between elements
 	ReverseImports bool   // imports written in reverse order
 	OpenBraceNL    bool   // extra spaces around tokens
+	NoSyntaxLine   bool   // proto2 files are written without their (implied) `syntax = "proto2";` line
 }
 
 // Rendered is the text of every file plus the 1-based line of every element.
@@ -688,9 +692,11 @@ func RenderFile(f *File, st Style) (string, map[string]int) {
 		w.ind = "  "
 	}
 	// the syntax line never gets a comment before it in style 2 (keeps the file header simple)
-	switch f.Syntax {
-	case "editions":
+	switch {
+	case f.Syntax == "editions":
 		w.put(0, KeySyntax, `edition = "2023";`)
+	case f.Syntax == "proto2" && (f.NoSyntaxDecl || st.NoSyntaxLine):
+		// no syntax declaration: the file is proto2 by default (no line, no key)
 	default:
 		w.put(0, KeySyntax, `syntax = "`+f.Syntax+`";`)
 	}
